@@ -129,6 +129,12 @@ func extractSinglePart(re *syntax.Regexp) *charClassPart {
 		charClass = re.Sub[0]
 		minMatch = re.Min
 		maxMatch = re.Max
+		if maxMatch == 0 {
+			return nil // cc{0}: maxMatch=0 would be read as "unlimited"
+		}
+		if maxMatch < 0 {
+			maxMatch = 0 // cc{n,}: syntax uses -1 for unbounded, we use 0
+		}
 
 	case syntax.OpCharClass:
 		// Bare char class without quantifier - treat as cc{1,1}
@@ -140,8 +146,10 @@ func extractSinglePart(re *syntax.Regexp) *charClassPart {
 		return nil
 	}
 
-	// Validate that the inner is a char class
-	if charClass.Op != syntax.OpCharClass {
+	// Validate that the inner is a char class. Lazy quantifiers (cc+?, cc*?, ...)
+	// prefer the shortest repetition; the greedy matching below would report a
+	// different match end, so leave them to the general engines.
+	if charClass.Op != syntax.OpCharClass || re.Flags&syntax.NonGreedy != 0 {
 		return nil
 	}
 
@@ -150,8 +158,9 @@ func extractSinglePart(re *syntax.Regexp) *charClassPart {
 	runes := charClass.Rune
 	for i := 0; i < len(runes); i += 2 {
 		lo, hi := runes[i], runes[i+1]
-		// Only support ASCII for now
-		if lo > 255 || hi > 255 {
+		// Only support ASCII for now: the tables are indexed by byte, and any
+		// rune >= 0x80 (including U+0080..U+00FF) is multi-byte in UTF-8.
+		if hi > 0x7F {
 			return nil
 		}
 		for r := lo; r <= hi; r++ {
@@ -277,26 +286,7 @@ func isValidCompositePart(re *syntax.Regexp) bool {
 		return false
 	}
 
-	switch re.Op {
-	case syntax.OpPlus, syntax.OpStar, syntax.OpQuest:
-		// Must have exactly one sub which is a char class
-		if len(re.Sub) != 1 {
-			return false
-		}
-		return re.Sub[0].Op == syntax.OpCharClass
-
-	case syntax.OpRepeat:
-		// Must have exactly one sub which is a char class
-		if len(re.Sub) != 1 {
-			return false
-		}
-		return re.Sub[0].Op == syntax.OpCharClass
-
-	case syntax.OpCharClass:
-		// Bare char class (implicit {1,1})
-		return true
-
-	default:
-		return false
-	}
+	// Use the extractor itself so that the predicate and the searcher can never
+	// disagree about which parts (greedy, ASCII-only, sane bounds) are supported.
+	return extractSinglePart(re) != nil
 }
